@@ -3,6 +3,12 @@ from inspect import signature
 
 from sklearn.utils import _param_validation as skparamvalid
 
+try:  # scikit-learn >= 1.6 exposes data validation as a function
+    from sklearn.utils.validation import validate_data
+except ImportError:  # older scikit-learn: the estimator method
+    def validate_data(_estimator, /, *args, **kwargs):
+        return _estimator._validate_data(*args, **kwargs)
+
 
 class InvalidParameterError(ValueError, TypeError):
     pass
